@@ -23,6 +23,7 @@ sys.path.insert(0, HERE)
 
 from sa import registry  # noqa: E402
 from sa.loader import AnalysisError, Repo  # noqa: E402
+from sa.interp import Raised, Undecided  # noqa: E402
 from sa.report import (  # noqa: E402
     DISCHARGED, UNRECOGNISED, VIOLATED, Sink, split_known, write_evidence, write_replay,
 )
@@ -38,6 +39,10 @@ def run_rules(prop, repo, tier):
             sink.unknown(rid, f"analysis:{rid}", None, f"{exc}")
         except RecursionError:
             sink.unknown(rid, f"analysis:{rid}", None, "recursion limit in the analysis")
+        except Undecided as exc:
+            sink.unknown(rid, f"analysis:{rid}", None, f"condition outside the rule's abstract domain: {exc}")
+        except Raised as exc:
+            sink.unknown(rid, f"analysis:{rid}", None, f"unexpected abstract exception {exc.name}: {exc.exc!r}")
     return sink
 
 
